@@ -156,4 +156,85 @@ theorem member_remove (m : Toplex) (σ ρ : Simplex) :
 
 #print axioms member_insert
 #print axioms member_remove
+
+/-! ### the stored simplices are the maximal ones -/
+
+/-- no stored simplex is contained in another one (this also excludes duplicates) -/
+def Antichain (m : Toplex) : Prop := m.Pairwise fun a b => subset a b = false ∧ subset b a = false
+
+theorem antichain_insert (m : Toplex) (σ : Simplex) (h : Antichain m) : Antichain (insertSimplex m σ) := by
+  unfold insertSimplex
+  split
+  · exact h
+  · rename_i hm
+    unfold Antichain
+    rw [List.pairwise_append]
+    refine ⟨List.Pairwise.sublist List.filter_sublist h, List.pairwise_singleton _ _, ?_⟩
+    intro τ hτ x hx
+    have hx' : x = σ := by simpa using hx
+    subst hx'
+    obtain ⟨hτm, hns⟩ := List.mem_filter.mp hτ
+    refine ⟨by simpa using hns, ?_⟩
+    cases hs : subset x τ with
+    | false => rfl
+    | true => exact absurd ((member_iff m x).mpr ⟨τ, hτm, hs⟩) hm
+
+theorem antichain_fold_facets (τ : Simplex) : ∀ (vs : List Nat) (acc : Toplex), Antichain acc →
+    Antichain (vs.foldl (fun acc v => insertSimplex acc (without τ v)) acc) := by
+  intro vs
+  induction vs with
+  | nil => intro acc h; exact h
+  | cons v vs ih => intro acc h; exact ih _ (antichain_insert acc _ h)
+
+theorem antichain_remove (m : Toplex) (σ : Simplex) (h : Antichain m) : Antichain (removeSimplex m σ) := by
+  unfold removeSimplex
+  simp only
+  have hk : Antichain (m.filter fun τ => !subset σ τ) := List.Pairwise.sublist List.filter_sublist h
+  generalize (m.filter fun τ => subset σ τ) = hit
+  generalize (m.filter fun τ => !subset σ τ) = keep at hk
+  induction hit generalizing keep with
+  | nil => exact hk
+  | cons τ hit ih => exact ih _ (antichain_fold_facets τ σ keep hk)
+
+theorem subset_refl (a : Simplex) : subset a a = true := by
+  rw [subset_iff]; exact fun x hx => hx
+
+theorem antichain_mem : ∀ (m : Toplex), Antichain m → ∀ a ∈ m, ∀ b ∈ m, a ≠ b → subset a b = false := by
+  intro m
+  induction m with
+  | nil => intro _ a ha; cases ha
+  | cons x m ih =>
+    intro h a ha b hb hab
+    have hp := List.pairwise_cons.mp h
+    rcases List.mem_cons.mp ha with rfl | ha'
+    · rcases List.mem_cons.mp hb with rfl | hb'
+      · exact absurd rfl hab
+      · exact (hp.1 b hb').1
+    · rcases List.mem_cons.mp hb with rfl | hb'
+      · exact (hp.1 a ha').2
+      · exact ih hp.2 a ha' b hb' hab
+
+/-- every stored simplex is a maximal simplex of the represented complex -/
+theorem stored_is_maximal (m : Toplex) (h : Antichain m) (τ : Simplex) (hτ : τ ∈ m) :
+    member m τ = true ∧ ∀ ρ, member m ρ = true → subset τ ρ = true → subset ρ τ = true := by
+  refine ⟨(member_iff m τ).mpr ⟨τ, hτ, subset_refl τ⟩, ?_⟩
+  intro ρ hρ hτρ
+  obtain ⟨τ', hτ', hρτ'⟩ := (member_iff m ρ).mp hρ
+  have hsub : subset τ τ' = true := subset_trans hτρ hρτ'
+  by_cases hne : τ = τ'
+  · rw [hne]; exact hρτ'
+  · have := antichain_mem m h τ hτ τ' hτ' hne
+    rw [hsub] at this; cases this
+
+/-- every maximal simplex of the represented complex is stored (up to the order of its vertices) -/
+theorem maximal_is_stored (m : Toplex) (τ : Simplex) (hmem : member m τ = true)
+    (hmax : ∀ ρ, member m ρ = true → subset τ ρ = true → subset ρ τ = true) :
+    ∃ τ' ∈ m, subset τ τ' = true ∧ subset τ' τ = true := by
+  obtain ⟨τ', hτ', hs⟩ := (member_iff m τ).mp hmem
+  exact ⟨τ', hτ', hs, hmax τ' ((member_iff m τ').mpr ⟨τ', hτ', subset_refl τ'⟩) hs⟩
+
+#print axioms antichain_insert
+#print axioms antichain_remove
+#print axioms stored_is_maximal
+#print axioms maximal_is_stored
 end ToplexProto
